@@ -21,6 +21,7 @@ with `fp2_dlog_2e`) are checked by tools/props/c11.py on random bases.
 import SqiProofs.Dlog
 import SqiProofs.PairingMat
 import SqiGen.Isog
+import SqiGen.A24Cache
 import Mathlib.Data.ZMod.Basic
 import Mathlib.Algebra.Group.TypeTags.Basic
 
@@ -145,5 +146,22 @@ theorem cubicalDBL_is_xDBL (P : SqiGen.EcPoint F) (a24 : F) :
   unfold SqiGen.cubicalDBL SqiGen.xDBL_A24
   simp only [mul_one]
 end
+
+/-! ## the A24 cache of `ec_curve_t` (tie T, tools/translate/a24cache.py)
+
+`ec_curve_t.A24` is meaningful only after `ec_curve_normalize_A24` set `is_A24_computed_and_normalized`. In the model a function
+that reads the cache of a curve it did not normalise itself is a fault unless it is on this audited list (static helpers /
+documented preconditions, each checked by hand: callers normalise first). The pairing / dlog entry points (`weil`,
+`ec_dlog_2_weil`, `change_of_basis_matrix_two`, `matrix_application_even_basis`) must NOT be on it: they recompute A24 from
+(A : C) (`A24_from_AC`) or normalise a private copy, so their results cannot depend on the cache state of the caller's struct
+(checked on every run by the harness in four cache states). -/
+def auditedA24Readers : List (String × String × String) := [
+  ("src/ec/ref/ecx/basis.c", "clear_cofactor_for_maximal_even_order", "curve"),
+  ("src/ec/ref/ecx/ec.c", "ec_ladder3pt", "A"),
+  ("src/sqisigndim2_heuristic/ref/sqisigndim2_heuristicx/sign.c", "protocols_sign", "sk->curve"),
+  ("src/sqisignhd/ref/sqisignhdx/sign.c", "protocols_sign", "sk->curve")
+]
+
+theorem a24_cache_readers_audited : SqiGen.A24Cache.unguardedReaders = auditedA24Readers := by decide +kernel
 
 end SqiProps.C11
